@@ -135,6 +135,12 @@ func (set *TemplateSet) BanFilter(name string) error {
 }
 
 func (set *TemplateSet) resolveTemplate(tpl *Template, path string) (name string, loader TemplateLoader, fd io.Reader, err error) {
+	if tpl != nil && tpl.isTplString {
+		// a template compiled from a string has no place of its own: a name
+		// written in it is looked up like one handed to FromFile
+		tpl = nil
+	}
+
 	// iterate over loaders until we appear to have a valid template
 	for _, loader = range set.loaders {
 		name = set.resolveFilenameForLoader(loader, tpl, path)
@@ -183,7 +189,7 @@ func (set *TemplateSet) FromCache(filename string) (*Template, error) {
 
 	// Cache miss
 	if !has {
-		tpl, err := set.FromFile(cleanedFilename)
+		tpl, err := set.fromFileFor(nil, filename)
 		if err != nil {
 			return nil, err
 		}
@@ -231,6 +237,36 @@ func (set *TemplateSet) FromFile(filename string) (*Template, error) {
 	}
 
 	return newTemplate(set, filename, false, buf)
+}
+
+// fromFileFor loads the template that name refers to when it is written in
+// the template referrer (nil: a name handed in by the caller): every loader
+// resolves the name by its own rules - relative to the referrer, under its own
+// base directory - and the first loader that has it wins. The template is
+// named by the resolution of the loader that delivered it; a name no loader
+// has is reported as the first loader resolves it.
+func (set *TemplateSet) fromFileFor(referrer *Template, name string) (*Template, error) {
+	if referrer != nil && referrer.isTplString {
+		// looked up and named like a name handed to FromFile (see resolveTemplate)
+		return set.FromFile(name)
+	}
+
+	set.firstTemplateCreated.Store(true)
+
+	resolved, _, fd, err := set.resolveTemplate(referrer, name)
+	var buf []byte
+	if err == nil {
+		buf, err = io.ReadAll(fd)
+	}
+	if err != nil {
+		return nil, &Error{
+			Filename:  set.resolveFilename(referrer, name),
+			Sender:    "fromfile",
+			OrigError: err,
+		}
+	}
+
+	return newTemplate(set, resolved, false, buf)
 }
 
 // RenderTemplateString is a shortcut and renders a template string directly.
